@@ -42,7 +42,25 @@ Definition stop_with_inflight (k : pr_case) : bool :=
   existsb (fun oo => match fst oo with PStop => match snd oo with [] => false | _ => true end | _ => false end) (combine (pk_ops k) (pk_obs k)).
 Definition count_stops (k : pr_case) : Z := zlen (filter (fun o => match o with PStop => true | _ => false end) (pk_ops k)).
 
-(* result vector: [diff; mon_c19_stop_returns; mon_c19_no_probe_after; nt_c19; nt_c04] *)
+(* C04 / C02 on the implementation's own trace: a backend whose probe failed at instant t (status 500 or transport error;
+   the scripted transport answers at once) serves no client request up to and including t + window.  State: now, current
+   script of each backend, end of the window of each backend. *)
+Definition zget (k : Z) (l : list (Z * Z)) (d : Z) : Z := match lookup k l with Some v => v | None => d end.
+Fixpoint window_ok (w now : Z) (scripts untils : list (Z * Z)) (l : list (pop * list Z)) : bool :=
+  match l with
+  | [] => true
+  | (PSet b sc, _) :: t => window_ok w now (update b sc scripts) untils t
+  | (PAdvance dt, _) :: t => window_ok w (now + Z.max 0 dt) scripts untils t
+  | (PTick, probed) :: t =>
+      let untils' := fold_left (fun u i => let sc := zget i scripts 0 in
+                                           if Z.eqb sc 1 || Z.eqb sc 2 then update i (now + w) u else u) probed untils in
+      window_ok w now scripts untils' t
+  | (PRequest, served) :: t =>
+      forallb (fun i => match lookup i untils with Some u => u <? now | None => true end) served && window_ok w now scripts untils t
+  | (PStop, _) :: t => window_ok w now scripts untils t
+  end.
+
+(* result vector: [diff; mon_c19_stop_returns; mon_c19_no_probe_after; nt_c19; nt_c04; mon_c04_probe_window] *)
 Definition eval_pr_case (k : pr_case) : list Z :=
   let cfg := mkPCfg (pk_window k) (pk_timeout k) in
   let outs := snd (prun cfg (pinit k) (pk_ops k)) in
@@ -50,7 +68,8 @@ Definition eval_pr_case (k : pr_case) : list Z :=
     b2z (stop_returned k);
     b2z (no_probe_after_stop false (combine (pk_ops k) (pk_obs k)) && Z.eqb (pk_late k) 0);
     b2z (has_stop k && (stop_with_inflight k || (2 <=? count_stops k)));
-    b2z (existsb (fun o => match o with PSet _ s => negb (Z.eqb s 0) | _ => false end) (pk_ops k)) ].
+    b2z (existsb (fun o => match o with PSet _ s => negb (Z.eqb s 0) | _ => false end) (pk_ops k));
+    b2z (window_ok (pk_window k) 0 [] [] (combine (pk_ops k) (pk_obs k))) ].
 
 (* ---- sigterm suite (C19, process level): SIGTERM / SIGINT to the real binary with a request and probes in flight ---- *)
 Record sg_case := mkSgCase {
